@@ -7,6 +7,7 @@ package main
 import (
 	"fmt"
 	"net"
+	"strings"
 	"sync"
 	"time"
 
@@ -68,21 +69,40 @@ func getStomp() (*stompEnv, error) {
 			senvErr = err
 			return
 		}
-		time.Sleep(50 * time.Millisecond)
+		// the SUBSCRIBE frame is processed asynchronously: probe until a sentinel comes through
+		okSub := false
+		for i := 0; i < 100 && !okSub; i++ {
+			if _, err := e.drainWait(100 * time.Millisecond); err == nil {
+				okSub = true
+			}
+		}
+		if !okSub {
+			senvErr = fmt.Errorf("stomp spy subscription not established")
+			return
+		}
 		senv = e
 	})
 	return senv, senvErr
 }
 
-var sentinel = []byte("c12-sentinel")
+const sentinelPrefix = "c12-sentinel-"
 
-// drain sends a sentinel on the publisher's own connection and collects every message that
-// arrives before it (same connection, same destination: ordered).
+var sentinelSeq int
+
+// drain sends a numbered sentinel on the publisher's own connection and collects every message
+// that arrives before it (same connection, same destination: ordered).
 func (e *stompEnv) drain() ([][]byte, error) {
-	if err := e.pubConn.Send("/topic/frugal."+pubTopic, "application/octet-stream", sentinel); err != nil {
+	return e.drainWait(10 * time.Second)
+}
+
+func (e *stompEnv) drainWait(d time.Duration) ([][]byte, error) {
+	sentinelSeq++
+	mine := fmt.Sprintf("%s%d", sentinelPrefix, sentinelSeq)
+	if err := e.pubConn.Send("/topic/frugal."+pubTopic, "application/octet-stream", []byte(mine)); err != nil {
 		return nil, err
 	}
 	var out [][]byte
+	deadline := time.After(d)
 	for {
 		select {
 		case m, ok := <-e.sub.C:
@@ -92,11 +112,14 @@ func (e *stompEnv) drain() ([][]byte, error) {
 			if m.Err != nil {
 				return out, m.Err
 			}
-			if string(m.Body) == string(sentinel) {
+			if string(m.Body) == mine {
 				return out, nil
 			}
+			if strings.HasPrefix(string(m.Body), sentinelPrefix) {
+				continue // a sentinel of an earlier, abandoned wait
+			}
 			out = append(out, m.Body)
-		case <-time.After(10 * time.Second):
+		case <-deadline:
 			return out, fmt.Errorf("stomp sentinel not received")
 		}
 	}
